@@ -292,6 +292,26 @@ example : (nodesA [] (prepare 1 sample 0)).map (fun p => (breadcrumbs p.1 p.2).m
     [[some 0], [some 0, some 1], [some 0, some 1, some 1], [some 0, some 1, some 1, some 1],
      [some 0, some 1, some 1], [some 0, some 2]] := by decide
 
+/-- **A float carries the label of its caption, wherever the caption stands inside it**: if exactly one
+    caption node lies below the float — directly, or nested at any depth inside boxes (`\parbox`, `\centerline`,
+    `\fbox`), font commands or environments (`center`, `minipage`) — `Float.digest` makes it the float's title, so
+    the identifier the float's template prints (`obj.title.id`) is the caption's id, i.e. the `\label` a `\ref`
+    links to.  (`countCaps` counts caption nodes on the tree; `floatTitle` goes through `allChildNodes`.) -/
+theorem float_carries_caption_label (t : Tree) (h : countCaps t = 1) :
+    ∃ c, floatTitle t = some c ∧ isCaption c = true ∧ c ∈ descendants t ∧ floatId t = c.id := by
+  have hl := PlasVerif.Proofs.UrlsCrumbs.caps_length t
+  rw [h] at hl
+  match hc : (descendants t).filter isCaption, hl with
+  | [c], _ =>
+    have hm : c ∈ (descendants t).filter isCaption := by rw [hc]; simp
+    have hm' := List.mem_filter.mp hm
+    exact ⟨c, by simp [floatTitle, hc], hm'.2, hm'.1, by simp [floatId, floatTitle, hc]⟩
+
+/-- a figure whose caption sits in `\centerline{\parbox{..}{\caption..\label{fig:x}}}` -/
+example : floatId (.node 201 none "" none
+    [.node 1001 none "" none [.node 1001 none "" none
+      [.node 1001 (some (.lab "fig:x")) { num := "1", cap := true } none []]]]) = some (.lab "fig:x") := by decide
+
 /-- **The navigation entries of `userdata['links']` are nodes of the document**: whatever sequence of commands,
     `\begin{…}` and `\end{…}` instances of link-type macros the parser invokes (`\printindex`, the `theindex`
     environment makeindex writes, `thebibliography`, …), every registered entry is a command or `\begin` instance —
